@@ -7,7 +7,22 @@ verus! {
 //!include prelude/keymap.rs
 //!include prelude/app.rs
 use trie_rs::Trie;
-pub mod graph { pub use super::graph_err::GraphError; pub struct Dag { pub x: u8 } }
+pub mod graph { pub use super::graph_err::GraphError; pub struct Dag { pub x: u8 }
+    use vstd::prelude::*;
+    // contracts of the Dag methods `analyze` calls, as far as it depends on them (proved in unit graph: get_groups is a layering of the
+    // visible subgraph; here only that the three methods are functions of the graph and that grouping does not rename nodes)
+    impl Dag {
+        pub uninterp spec fn groups_spec(&self) -> Seq<Vec<usize>>;
+        pub uninterp spec fn labeled_spec(&self) -> Seq<Vec<String>>;
+        pub uninterp spec fn label_of(&self, n: usize) -> Seq<char>;
+        #[verifier::external_body] pub fn get_groups(&mut self) -> (r: Result<Vec<Vec<usize>>, GraphError>)
+            ensures r matches Ok(g) ==> g@ == old(self).groups_spec(), forall|n: usize| final(self).label_of(n) == old(self).label_of(n) { unimplemented!() }
+        #[verifier::external_body] pub fn get_label_by_node(&self, id: &usize) -> (r: Result<&String, GraphError>)
+            ensures r matches Ok(l) ==> l@ == self.label_of(*id) { unimplemented!() }
+        #[verifier::external_body] pub fn get_labeled_groups(&mut self) -> (r: Result<Vec<Vec<String>>, GraphError>)
+            ensures r matches Ok(g) ==> g@ == old(self).labeled_spec() { unimplemented!() }
+    }
+}
 
 //!type src/core/mod.rs Change
 pub struct Change {
@@ -381,6 +396,184 @@ fn analyze_change<'a>(
 @        }
 @    }
     change_targets
+}
+//!end
+
+//!type src/app/analyze.rs AnalyzeInput
+pub struct AnalyzeInput {
+    pub show_changes: bool,
+    pub show_change_targets: bool,
+    pub show_target_groups: bool,
+}
+//!end
+//!type src/app/analyze.rs AnalyzedChange
+pub struct AnalyzedChange {
+    pub path: String,
+    pub targets: Option<Vec<AnalyzedChangeTarget>>,
+}
+//!end
+//!type src/app/analyze.rs AnalyzeOutput
+pub struct AnalyzeOutput {
+    pub changes: Option<Vec<AnalyzedChange>>,
+    pub targets: Vec<String>,
+    pub target_groups: Option<Vec<Vec<String>>>,
+    pub checkpointed: bool,
+}
+//!end
+// ---- the summary of `analyze` (C01) and its pruned target groups (C03) ----
+pub open spec fn has(s: Seq<String>, p: Seq<char>) -> bool { exists|i: int| 0 <= i < s.len() && #[trigger] s[i]@ == p }
+pub open spec fn no_dup(s: Seq<String>) -> bool { forall|i: int, j: int| 0 <= i < j < s.len() ==> (#[trigger] s[i])@ != (#[trigger] s[j])@ }
+pub uninterp spec fn str_le2(a: Seq<char>, b: Seq<char>) -> bool;     // the byte order of strings (total)
+pub open spec fn sorted_strs(s: Seq<String>) -> bool { forall|i: int, j: int| 0 <= i < j < s.len() ==> str_le2(#[trigger] s[i]@, #[trigger] s[j]@) }
+// ASSUMED (std): slice::sort on strings - a sorted rearrangement: same members, duplicates neither added nor removed
+#[verifier::external_body] pub fn sort_strs(v: &mut Vec<String>)
+    ensures final(v)@.len() == old(v)@.len(), sorted_strs(final(v)@), no_dup(old(v)@) ==> no_dup(final(v)@),
+        forall|p: Seq<char>| #![trigger has(final(v)@, p)] has(final(v)@, p) <==> has(old(v)@, p),
+{ unimplemented!() }
+// ASSUMED: what the rayon map/reduce over chunks of changes computes (R12 range substitution in `analyze`): per-change results in
+// order, and the union over ALL changes of the targets analyze_change adds - whatever the chunking
+pub uninterp spec fn union_targets(cs: Seq<Change>, ix: Index, show: bool) -> Set<Seq<char>>;
+#[verifier::external_body] pub fn par_analyze(changes: &Option<Vec<Change>>, index: &core::Index<'_>, input: &AnalyzeInput) -> (r: (Vec<AnalyzedChange>, HashSet<String>))
+    ensures changes matches Some(cs) ==> r.1@ == union_targets(cs@, *index, input.show_change_targets), changes is None ==> r.1@ == Set::<Seq<char>>::empty()
+{ unimplemented!() }
+// the labels of a group kept when they are changed, in order
+pub open spec fn keep(g: Seq<usize>, n: int, dag: graph::Dag, changed: Set<Seq<char>>) -> Seq<Seq<char>> decreases n {
+    if n <= 0 { Seq::empty() } else { let r = keep(g, n - 1, dag, changed); let l = dag.label_of(g[n - 1]); if changed.contains(l) { r.push(l) } else { r } }
+}
+// the last n groups, last first, each reduced to its changed members, empty ones dropped
+pub open spec fn pruned(groups: Seq<Vec<usize>>, n: int, dag: graph::Dag, changed: Set<Seq<char>>) -> Seq<Seq<Seq<char>>> decreases n {
+    if n <= 0 { Seq::empty() } else {
+        let r = pruned(groups, n - 1, dag, changed);
+        let g = keep(groups[groups.len() - n]@, groups[groups.len() - n]@.len() as int, dag, changed);
+        if g.len() > 0 { r.push(g) } else { r }
+    }
+}
+proof fn lemma_keep_cong(g: Seq<usize>, n: int, d1: graph::Dag, d2: graph::Dag, changed: Set<Seq<char>>)
+    requires forall|x: usize| d1.label_of(x) == d2.label_of(x),
+    ensures keep(g, n, d1, changed) == keep(g, n, d2, changed)
+    decreases n
+{ if n > 0 { lemma_keep_cong(g, n - 1, d1, d2, changed); } }
+proof fn lemma_pruned_cong(groups: Seq<Vec<usize>>, n: int, d1: graph::Dag, d2: graph::Dag, changed: Set<Seq<char>>)
+    requires forall|x: usize| d1.label_of(x) == d2.label_of(x),
+    ensures pruned(groups, n, d1, changed) == pruned(groups, n, d2, changed)
+    decreases n
+{ if n > 0 { lemma_pruned_cong(groups, n - 1, d1, d2, changed); lemma_keep_cong(groups[groups.len() - n]@, groups[groups.len() - n]@.len() as int, d1, d2, changed); } }
+pub open spec fn strs(v: Seq<String>) -> Seq<Seq<char>> { Seq::new(v.len(), |i: int| v[i]@) }
+pub open spec fn group_strs(v: Seq<Vec<String>>) -> Seq<Seq<Seq<char>>> { Seq::new(v.len(), |i: int| strs(v[i]@)) }
+
+//!fn src/app/analyze.rs analyze rules=R1,R3,R12 props=C01,C03
+pub(crate) fn analyze(
+    input: &AnalyzeInput,
+    index: &mut core::Index<'_>,
+    changes: Option<Vec<Change>>,
+) -> ⟦(res: ⟧Result<AnalyzeOutput, MonorailError>⟦)⟧
+@    ensures
+@        res matches Ok(o) ==> o.checkpointed == (changes is Some),
+@        // C01: the summary is sorted, duplicate-free, and holds exactly the union over all changes of the affected targets (with a
+@        // checkpoint), respectively every configured target (without one)
+@        res matches Ok(o) ==> sorted_strs(o.targets@), // [C01]
+@        res matches Ok(o) ==> (changes is Some || no_dup(old(index).targets@)) ==> no_dup(o.targets@), // [C01]
+@        res matches Ok(o) ==> forall|p: Seq<char>| #![trigger has(o.targets@, p)] has(o.targets@, p) <==>
+@            (if changes is Some { union_targets(changes->Some_0@, *old(index), input.show_change_targets).contains(p) } else { has(old(index).targets@, p) }), // [C01]
+@        // C03: the reported groups are the graph's layers, last first, each reduced to the changed targets (empty layers dropped); without
+@        // a checkpoint, the graph's labelled layers as they are
+@        res matches Ok(o) ==> (!input.show_target_groups ==> o.target_groups is None),
+@        res matches Ok(o) ==> ((input.show_target_groups && changes is Some) ==> o.target_groups is Some && group_strs(o.target_groups->Some_0@)
+@            == pruned(old(index).dag.groups_spec(), old(index).dag.groups_spec().len() as int, old(index).dag, union_targets(changes->Some_0@, *old(index), input.show_change_targets))), // [C03]
+@        res matches Ok(o) ==> ((input.show_target_groups && changes is None) ==> o.target_groups is Some && o.target_groups->Some_0@ == old(index).dag.labeled_spec()), // [C03]
+{
+    let mut checkpointed = false;
+    let (analyzed_changes, changed_targets) = par_analyze(&changes, index, input);
+
+    // build up output from analysis results
+    let mut targets⟦: Vec<String>⟧ = vec![];
+    let mut target_groups = None;
+    if changes.is_some() {
+        checkpointed = true;
+        // copy the hashmap into the output vector
+        let changed_vec = changed_targets.to_vec(); 
+@        let ghost cv = changed_vec@;
+@        assert forall|k: int| 0 <= k < cv.len() implies changed_targets@.contains(#[trigger] cv[k]@) by { assert(cv[k].kv() == cv[k]@); }
+@        assert forall|a: int, b: int| 0 <= a < b < cv.len() implies (#[trigger] cv[a])@ != (#[trigger] cv[b])@ by { assert(cv[a].kv() == cv[a]@); assert(cv[b].kv() == cv[b]@); }
+@        assert forall|p: Seq<char>| changed_targets@.contains(p) implies exists|j: int| 0 <= j < cv.len() && #[trigger] cv[j]@ == p by {
+@            let i = choose|i: int| 0 <= i < cv.len() && #[trigger] cv[i].kv() == p; assert(cv[i]@ == p); }
+        for t in ⟦itt: ⟧changed_vec
+@            invariant
+@                itt.seq() == cv, targets@.len() == itt.index@, forall|k: int| 0 <= k < targets@.len() ==> (#[trigger] targets@[k])@ == cv[k]@,
+@                forall|k: int| 0 <= k < cv.len() ==> changed_targets@.contains(#[trigger] cv[k]@),
+@                forall|a: int, b: int| 0 <= a < b < cv.len() ==> (#[trigger] cv[a])@ != (#[trigger] cv[b])@,
+        {
+            targets.push(t.clone());
+        }
+@        assert(no_dup(targets@));
+@        assert forall|p: Seq<char>| #![trigger has(targets@, p)] has(targets@, p) <==> changed_targets@.contains(p) by {
+@            if changed_targets@.contains(p) { let j = choose|j: int| 0 <= j < cv.len() && #[trigger] cv[j]@ == p; assert(targets@[j]@ == p); }
+@            if has(targets@, p) { let i = choose|i: int| 0 <= i < targets@.len() && #[trigger] targets@[i]@ == p; assert(cv[i]@ == p); }
+@        }
+        if input.show_target_groups {
+            let groups = index.dag.get_groups()?;
+
+            // prune the groups to contain only affected targets
+            let mut pruned_groups: Vec<Vec<String>> = vec![];
+@            assert(group_strs(pruned_groups@) =~= pruned(groups@, 0, index.dag, changed_targets@));
+            for group__i in 0..groups.len()
+@                invariant
+@                    group_strs(pruned_groups@) == pruned(groups@, group__i as int, index.dag, changed_targets@),
+            { let group = &groups[groups.len() - 1 - group__i];
+                let mut pg: Vec<String> = vec![];
+@                assert(strs(pg@) =~= keep(group@, 0, index.dag, changed_targets@));
+                for id in ⟦itg: ⟧group
+@                    invariant
+@                        itg.seq().len() == group@.len(), forall|k: int| 0 <= k < itg.seq().len() ==> *itg.seq()[k] == group@[k],
+@                        strs(pg@) == keep(group@, itg.index@ as int, index.dag, changed_targets@),
+                {
+@                    let ghost opg = pg@;
+                    let label = index.dag.get_label_by_node(id)?;
+                    if changed_targets.contains(label) {
+                        pg.push(label.to_owned());
+@                        assert(strs(pg@) =~= strs(opg).push(label@));
+                    }
+                }
+@                let ghost opr = pruned_groups@;
+                if !pg.is_empty() {
+                    pruned_groups.push(pg);
+@                    assert(group_strs(pruned_groups@) =~= group_strs(opr).push(strs(pruned_groups@[opr.len() as int]@)));
+                }
+@                assert(groups@[groups@.len() - (group__i + 1)] == *group);
+            }
+@            proof { lemma_pruned_cong(groups@, groups@.len() as int, index.dag, old(index).dag, changed_targets@); }
+            target_groups = Some(pruned_groups);
+        }
+    } else {
+        // use config targets and all target groups
+        for t in ⟦itx: ⟧&index.targets
+@            invariant
+@                itx.seq().len() == index.targets@.len(), forall|j: int| 0 <= j < itx.seq().len() ==> *itx.seq()[j] == index.targets@[j],
+@                targets@.len() == itx.index@, forall|k: int| 0 <= k < targets@.len() ==> (#[trigger] targets@[k])@ == index.targets@[k]@,
+        {
+@            broadcast use axiom_to_string_ref, axiom_to_string_string;
+            targets.push(t.to_string());
+        }
+@        assert forall|p: Seq<char>| #![trigger has(targets@, p)] has(targets@, p) <==> has(index.targets@, p) by {
+@            if has(targets@, p) { let i = choose|i: int| 0 <= i < targets@.len() && #[trigger] targets@[i]@ == p; assert(index.targets@[i]@ == p); }
+@            if has(index.targets@, p) { let i = choose|i: int| 0 <= i < index.targets@.len() && #[trigger] index.targets@[i]@ == p; assert(targets@[i]@ == p); }
+@        }
+@        assert(no_dup(index.targets@) ==> no_dup(targets@));
+        if input.show_target_groups {
+            target_groups = Some(index.dag.get_labeled_groups()?);
+        }
+    }
+    sort_strs(&mut targets);
+    Ok(AnalyzeOutput {
+        changes: if input.show_changes {
+            Some(analyzed_changes)
+        } else {
+            None
+        },
+        targets,
+        target_groups,
+        checkpointed,
+    })
 }
 //!end
 } // verus!
